@@ -292,6 +292,18 @@ def check_fit_emit(ctx, replay, out):
             ctx.count("fit emit: hypotheses of delete_emits_valid_payload hold")
             if replay.get("payload") is not None:
                 ctx.mismatch("fitEmit:delete-payload-invalid", replay, None, replay.get("payload"))
+        # insertInline_emits_valid_payload (Props/C11.lean): schema guards detB/fillersOKB/wrapOKB/labelsOKB/leafOkB/textStableC/
+        # closableB, valid document with creatable element types, closed slice of valid leaf nodes => the payload of the
+        # emitted step is valid; checked on the real step with the independent validator
+        if cls == "inline":
+            if rel.get("hyp") and rel.get("labels") and rel.get("leafOk") and rel.get("textStable") and rel.get("closable") \
+                    and rel.get("slClosedValid"):
+                ctx.count("fit emit: hypotheses of insertInline_emits_valid_payload hold (-> %s)" % g["kind"])
+                if replay.get("payload") is not None:
+                    ctx.mismatch("fitEmit:insertInline-payload-invalid", replay, None, replay.get("payload"))
+            else:
+                ctx.count("fit emit: hypotheses of insertInline_emits_valid_payload fail (closableB=%s slClosedValid=%s)"
+                          % (rel.get("closable"), rel.get("slClosedValid")))
         if rel.get("inStep") is not None:
             ctx.count("fit emit: in-step invariant over the loop (%s slice): %s" % (cls, rel["inStep"]))
             if rel["inStep"] and g.get("wf") is not True:
